@@ -2,6 +2,7 @@
 import itertools
 import os
 import random
+import re
 import shutil
 import struct
 import tempfile
@@ -51,7 +52,7 @@ PARTIAL = ['floats: proved are the exact decomposition (C18_float_rational_parti
 PER_FILE = 16
 I64MAX = 2 ** 63 - 1
 I64MIN = -2 ** 63
-FMT_INT, PARSE_INT, FMT_LIST, PARSE_LIST, PARSE_FLOAT, FMT_FLOAT, DIGIT_MATRIX = range(7)
+FMT_INT, PARSE_INT, FMT_LIST, PARSE_LIST, PARSE_FLOAT, FMT_FLOAT, DIGIT_MATRIX, MAL_INT, MAL_FLOAT = range(9)
 # smallest value of k digits that the pinned width computation already gives k+1 digits
 CARRY = {15: 10 ** 15 - 2, 16: 10 ** 16 - 21, 17: 10 ** 17 - 407, 18: 10 ** 18 - 4031}
 
@@ -91,7 +92,15 @@ def _some_runs(m, rng, routes):
 
 
 def _mk(kind, rows, runs):
+    if kind in (PARSE_INT, PARSE_FLOAT) and rows:
+        # parse the whole batch again at the very end (same array object: the first parse must not have changed it)
+        runs = list(runs) + [[0, list(range(len(rows)))]]
     return dict(kind=kind, rows=rows, runs=runs)
+
+
+BAD_INTS = ['-', '+', '1a', 'a', '1.5', '--5', '1-2', ' 3', '+-1', '1P', '12 ', '0x1', '1e3']
+BAD_FLOATS = ['1.2.3', '.', '+.', '-.', '-', '+', '1e', '1e+', '2e-', 'e5', 'abc', '1ee2', '1e2e3', '1e5.5', '1 2', '1E5',
+              '..', '1.e', '.e1', 'e', '1,5', '--1', '1.5.']
 
 
 def _rand_int(rng, width=None, signed=True):
@@ -225,6 +234,31 @@ def generate(tier, seed):
         cases.append(_mk(DIGIT_MATRIX, [data] + ivs, runs))
         # the same fields as the FIRST column of a file (the first field then starts at buffer offset 0)
         cases.append(_mk(PARSE_INT, fields, [[4, list(range(m))], [0, list(range(m))]] + [[4, [j]] for j in range(min(m, 3))]))
+    # ---- malformed texts among valid ones: the batch must raise, at its FIRST malformed row; sub-batches without a
+    #      malformed row convert as usual
+    n_mal = 14 if quick else 70
+    for i in range(n_mal):
+        m = rng.choice([2, 3, 3, 4]) if i % 3 else rng.randint(5, 9)
+        for kind, bad_pool in ((MAL_INT, BAD_INTS), (MAL_FLOAT, BAD_FLOATS)):
+            rows = []
+            for j in range(m):
+                if rng.random() < 0.4:
+                    rows.append(bad_pool[(i * 7 + j * 3 + rng.randrange(3)) % len(bad_pool)])
+                elif kind == MAL_INT:
+                    rows.append(_int_text(rng, _rand_int(rng)))
+                else:
+                    t = _float_text(rng, plus=True)
+                    while not _float_text_ok(t):
+                        t = _float_text(rng, plus=True)
+                    rows.append(t)
+            if not any(r in bad_pool for r in rows):
+                rows[rng.randrange(m)] = bad_pool[i % len(bad_pool)]
+            runs = _all_runs(m) if m <= 4 else _some_runs(m, rng, [0])
+            cases.append(_mk(kind, rows, runs))
+    # every malformed text alone and after / before a valid row
+    for kind, bad_pool, good in ((MAL_INT, BAD_INTS, '-12'), (MAL_FLOAT, BAD_FLOATS, '-2.5e1')):
+        for b in bad_pool:
+            cases.append(_mk(kind, [good, b, '7'], _all_runs(3)))
     # ---- small mixed batches with every ordered sub-batch
     n_small = 24 if quick else 150
     for i in range(n_small):
@@ -403,6 +437,27 @@ def _run(kind, route, sel, d):
     raise ValueError(kind)
 
 
+def _shared_batch(kind, rows):
+    import numpy as np
+    from bionumpy.encoded_array import as_encoded_array
+    from bionumpy.io import strops
+    canonical = re.compile(r'0|-?[1-9][0-9]*')
+    if kind in (PARSE_INT, MAL_INT) and all(canonical.fullmatch(t) and -2 ** 63 <= int(t) < 2 ** 63 for t in rows):
+        # canonical texts: take the formatter's own output object (format -> parse -> parse again -> read back)
+        b = strops.ints_to_strings(np.array([int(t) for t in rows], dtype=np.int64))
+        if [r.to_string() for r in b] == list(rows):
+            return b
+    return as_encoded_array(list(rows))
+
+
+def _parse_shared(kind, shared, idx, n):
+    from bionumpy.io import strops
+    batch = shared if list(idx) == list(range(n)) else shared[list(idx)]
+    if kind in (PARSE_INT, MAL_INT):
+        return [int(v) for v in strops.str_to_int(batch)]
+    return [d2b(float(v)) for v in strops.str_to_float(batch)]
+
+
 def _pow_keys(case):
     """every k for which the float parser evaluates 10.**k on the texts of this case"""
     ks = set()
@@ -411,7 +466,8 @@ def _pow_keys(case):
         ks.update(range(0, len(mant) + 1))
         if ex:
             try:
-                ks.add(int(ex))
+                if abs(int(ex)) <= 400:
+                    ks.add(int(ex))
             except ValueError:
                 pass
     return sorted(ks)
@@ -433,27 +489,41 @@ def observe(case):
     warnings.simplefilter('ignore')
     import numpy as np
     np.seterr(all='ignore')
+    from bionumpy.encodings.exceptions import EncodingError
     d = tempfile.mkdtemp(prefix='c18_')
     outs = []
+    kind = case['kind']
+    # ONE array object per case for the direct parsing runs: the whole batch is parsed from this very object (more than
+    # once), sub-batches and permutations are taken from it, and its text is read back after all runs
+    shared = None
+    if kind in (PARSE_INT, PARSE_FLOAT, MAL_INT, MAL_FLOAT) and all(len(t) > 0 for t in case['rows']):
+        shared = _shared_batch(kind, case['rows'])
     try:
         for route, idx in case['runs']:
             sel = [case['rows'][i] for i in idx]
             try:
-                if case['kind'] == DIGIT_MATRIX:
+                if kind == DIGIT_MATRIX:
                     r = _digit_matrix(case['rows'][0], sel)
+                elif shared is not None and route == 0:
+                    r = _parse_shared(kind, shared, idx, len(case['rows']))
                 else:
-                    r = _run(case['kind'], route, sel, d)
+                    r = _run(PARSE_INT if kind == MAL_INT else PARSE_FLOAT if kind == MAL_FLOAT else kind, route, sel, d)
                 if len(r) != len(sel):
-                    r = dict(error='length %d for %d rows' % (len(r), len(sel)))
+                    r = dict(error='length %d for %d rows' % (len(r), len(sel)), cls=2, row=-1)
+            except EncodingError as e:
+                ends = np.cumsum([len(t) for t in sel]) if sel and isinstance(sel[0], str) else np.array([0])
+                r = dict(error='EncodingError', cls=1, row=int(np.searchsorted(ends, int(e.offset), side='right')))
             except Exception as e:
-                r = dict(error=type(e).__name__)
+                r = dict(error=type(e).__name__, cls=2, row=-1)
             outs.append(r)
     finally:
         shutil.rmtree(d, ignore_errors=True)
     res = dict(runs=outs)
+    if shared is not None:
+        res['after'] = [row.to_string() for row in shared]
     # the platform's 10.**k for every exponent the float parser needs on these texts (assumption E3 of the model)
     texts = []
-    if case['kind'] == PARSE_FLOAT:
+    if case['kind'] in (PARSE_FLOAT, MAL_FLOAT):
         texts = list(case['rows'])
     elif case['kind'] == FMT_FLOAT:
         texts = [x[1] for r in outs if not isinstance(r, dict) for x in r]
@@ -479,7 +549,7 @@ def _row_in(kind, row):
 def _row_out(kind, out):
     if kind in (FMT_INT, FMT_LIST, DIGIT_MATRIX):
         return hx(out)
-    if kind in (PARSE_INT, PARSE_FLOAT):
+    if kind in (PARSE_INT, PARSE_FLOAT, MAL_INT, MAL_FLOAT):
         return zl([out])
     if kind == PARSE_LIST:
         return zl(out)
@@ -496,8 +566,11 @@ def to_coq(case, o):
             ot = '(Some %s)' % clist([_row_out(kind, x) for x in out], 'list Z')
         runs.append('(%s, %s, %s)' % (cz(route), zl(idx), ot))
     pw = clist(['(%s, %s)' % (cz(k), cz(b)) for k, b in o.get('pow', [])], '(Z * Z)')
-    return '{| k_kind := %s; k_rows := %s; k_runs := %s; k_pow := %s |}' % (
-        cz(kind), clist([_row_in(kind, r) for r in case['rows']], 'list Z'), clist(runs, 'run'), pw)
+    errs = clist(['(%s, %s)' % (cz(out.get('cls', 2)), cz(out.get('row', -1))) if isinstance(out, dict) else '(0%Z, (-1)%Z)'
+                  for out in o['runs']], '(Z * Z)')
+    after = '(Some %s)' % clist([hx(t) for t in o['after']], 'list Z') if 'after' in o else '(@None (list (list Z)))'
+    return '{| k_kind := %s; k_rows := %s; k_runs := %s; k_pow := %s; k_errs := %s; k_after := %s |}' % (
+        cz(kind), clist([_row_in(kind, r) for r in case['rows']], 'list Z'), clist(runs, 'run'), pw, errs, after)
 
 
 # ----------------------------------------------------------------------------- evidence helpers
@@ -527,13 +600,15 @@ def describe(case, o):
     rows = case['rows']
     if case['kind'] == FMT_FLOAT:
         rows = [repr(b2d(b)) for b in rows]
-    return dict(kind=['format ints', 'parse ints', 'format int lists', 'parse int lists', 'parse floats', 'format floats', 'digit matrix'][case['kind']],
+    return dict(kind=['format ints', 'parse ints', 'format int lists', 'parse int lists', 'parse floats', 'format floats', 'digit matrix',
+                      'parse ints (malformed rows)', 'parse floats (malformed rows)'][case['kind']],
                 rows=rows[:8], n_rows=len(rows), n_runs=len(case['runs']),
                 first_run=(o['runs'][0] if isinstance(o['runs'][0], dict) else o['runs'][0][:8]))
 
 
 def distribution(cases, obs):
-    names = ['format_ints', 'parse_ints', 'format_int_lists', 'parse_int_lists', 'parse_floats', 'format_floats', 'digit_matrix']
+    names = ['format_ints', 'parse_ints', 'format_int_lists', 'parse_int_lists', 'parse_floats', 'format_floats', 'digit_matrix',
+             'malformed_ints', 'malformed_floats']
     d = dict(cases={n: 0 for n in names}, rows=0, runs=0, converted_rows=0, batch_sizes={}, int_widths={}, routes={},
              exceptions=0, float_exponent_texts=0, float_fraction_texts=0, signed_rows=0)
     for c, o in zip(cases, obs):
@@ -547,6 +622,9 @@ def distribution(cases, obs):
             d['routes'][str(route)] = d['routes'].get(str(route), 0) + 1
         if isinstance(o, dict) and 'runs' in o:
             d['exceptions'] += sum(isinstance(r, dict) for r in o['runs'])
+        if c['kind'] in (MAL_INT, MAL_FLOAT):
+            d['malformed_rows'] = d.get('malformed_rows', 0) + sum(1 for r in c['rows'] if not _valid(c['kind'], r))
+            continue
         if c['kind'] == DIGIT_MATRIX:
             d['matrix_fields_before_widest'] = d.get('matrix_fields_before_widest', 0) + sum(
                 1 for a, b in c['rows'][1:] if b < max(y - x for x, y in c['rows'][1:]))
@@ -588,7 +666,45 @@ def _pinned_list_regroup(sel):
     return out
 
 
+_RE_INT = re.compile(r'[+-]?[0-9]+')
+_RE_FLOAT = re.compile(r'[+-]?([0-9]+\.?[0-9]*|\.[0-9]+)(e[+-]?[0-9]+)?')
+
+
+def _valid(kind, t):
+    return bool((_RE_INT if kind == MAL_INT else _RE_FLOAT).fullmatch(t))
+
+
+def _mal_bad_runs(case, o):
+    """runs of a malformed-rows case that violate the property: (sel, expected first bad row or None, observed)"""
+    kind, bad = case['kind'], []
+    for (route, idx), out in zip(case['runs'], o['runs']):
+        sel = [case['rows'][i] for i in idx]
+        k = next((j for j, t in enumerate(sel) if not _valid(kind, t)), None)
+        if k is None:
+            if isinstance(out, dict):
+                bad.append((sel, k, out))
+            elif kind == MAL_INT and out != [int(t) for t in sel]:
+                bad.append((sel, k, out))
+            elif kind == MAL_FLOAT and any(abs(_ord(x) - _ord(d2b(float(t)))) > 4 for t, x in zip(sel, out)):
+                bad.append((sel, k, out))
+        elif not (isinstance(out, dict) and out.get('cls') == 1 and out.get('row') == k):
+            bad.append((sel, k, out))
+    return bad
+
+
+def _raises_other(kind, t):
+    """texts on which the parsers raise ValueError instead of the parse error (model: POther)"""
+    if t == '':
+        return True
+    if kind == MAL_FLOAT and 'e' in t:
+        return t.count('e') > 1 or t.startswith('e') or t.endswith('e')
+    return False
+
+
 def _bad_rows(case, o):
+    if case['kind'] in (MAL_INT, MAL_FLOAT):
+        b = _mal_bad_runs(case, o)
+        return [(sel, out) for sel, k, out in b], None, None
     """(row, out) pairs that violate the per-row property, by an independent Python reading of it; None if a run raised"""
     kind = case['kind']
     bad = []
@@ -619,6 +735,22 @@ def _bad_rows(case, o):
 
 def finding(case, o):
     kind = case['kind']
+    if kind in (MAL_INT, MAL_FLOAT):
+        bad = _mal_bad_runs(case, o)
+        if not bad or o.get('after', case['rows']) != case['rows']:
+            return None
+        ids = set()
+        for sel, k, out in bad:
+            if k is None or not isinstance(out, dict):
+                return None
+            if out.get('cls') == 2 and any(_raises_other(kind, t) for t in sel):
+                ids.add('C18-malformed-number-other-exception')
+            elif kind == MAL_INT and out.get('cls') == 1 and out.get('row', -1) > k and sel[out['row']] in ('+', '-') \
+                    and sel[k] not in ('+', '-'):
+                ids.add('C18-int-error-row-sign-first')
+            else:
+                return None
+        return sorted(ids)[0] if len(ids) == 1 else 'C18-malformed-number-other-exception'
     bad, err, sel = _bad_rows(case, o)
     if kind in (FMT_INT, FMT_LIST):
         if bad is None or not bad:
@@ -670,6 +802,8 @@ def finding(case, o):
 
 
 def signature(case, o):
+    if o.get('after', case['rows']) != case['rows'] and case['kind'] in (PARSE_INT, PARSE_FLOAT, MAL_INT, MAL_FLOAT):
+        return '%d:input-text-changed' % case['kind']
     bad, err, sel = _bad_rows(case, o)
     if bad is None:
         return '%d:exception:%s' % (case['kind'], err)
@@ -677,6 +811,10 @@ def signature(case, o):
 
 
 def explain(case, o):
+    if o.get('after', case['rows']) != case['rows'] and case['kind'] in (PARSE_INT, PARSE_FLOAT, MAL_INT, MAL_FLOAT):
+        return dict(input_text_changed_by_parsing=dict(before=case['rows'][:8], after=o['after'][:8]))
+    if case['kind'] in (MAL_INT, MAL_FLOAT):
+        return dict(wrong_runs=[dict(texts=sel, first_malformed_row=k, observed=out) for sel, k, out in _mal_bad_runs(case, o)[:4]])
     bad, err, sel = _bad_rows(case, o)
     if bad is None:
         return dict(exception=err, on_rows=sel)
